@@ -10,7 +10,15 @@ import manifest_text as mt
 
 ROOT = os.path.dirname(os.path.dirname(os.path.abspath(__file__)))
 checks = []
+import glob
+BUILT = set()
 for pid in sorted(props.REGISTRY):
+    files = glob.glob(os.path.join(ROOT, "coq", "Props", pid + ".v")) + glob.glob(os.path.join(ROOT, "coq", "Props", pid + "_*.v")) + \
+        [os.path.join(ROOT, "coq", "Props", e) for e in props.REGISTRY[pid].get("extra_props", ())]
+    proj = open(os.path.join(ROOT, "coq", "_CoqProject")).read()
+    if any(("Props/" + os.path.basename(f)) in proj for f in files if os.path.exists(f)):
+        BUILT.add(pid)
+for pid in sorted(BUILT):
     t = mt.TEXT[pid]
     checks.append({
         "property_id": pid,
@@ -35,11 +43,11 @@ man = {
         "add_only": True,
     },
     "engines": [{"name": "coq-proof+correspondence", "path": "/verif/check",
-                 "serves_properties": sorted(props.REGISTRY),
+                 "serves_properties": sorted(BUILT),
                  "kind_free_text": "Coq 8.16 theorems about executable Gallina models (coq/), tied to /repo by differential execution "
                                    "of the real code against the model evaluated inside Coq (vm_compute) on generated cases"}],
     "checks": checks,
-    "not_applicable": [{"property_id": p, "reason": r} for p, r in sorted(mt.NOT_APPLICABLE.items()) if p not in props.REGISTRY],
+    "not_applicable": [{"property_id": p, "reason": r} for p, r in sorted(mt.NOT_APPLICABLE.items()) if p not in BUILT],
     "notes": mt.NOTES,
 }
 json.dump(man, open(os.path.join(ROOT, "MANIFEST.json"), "w"), indent=1)
